@@ -636,6 +636,31 @@ func selectLits(p *packages.Package, fd *ast.FuncDecl, sel string) []*ast.FuncLi
 			})
 		}
 		visit(fd.Body, true)
+	case strings.HasPrefix(sel, "mentions:"):
+		// outermost run-time literals assigned to n.exec whose body mentions the identifier
+		want := strings.TrimPrefix(sel, "mentions:")
+		ast.Inspect(fd.Body, func(m ast.Node) bool {
+			as, ok := m.(*ast.AssignStmt)
+			if !ok || len(as.Lhs) != 1 || len(as.Rhs) != 1 {
+				return true
+			}
+			se, ok := as.Lhs[0].(*ast.SelectorExpr)
+			l, ok2 := as.Rhs[0].(*ast.FuncLit)
+			if !ok || !ok2 || se.Sel.Name != "exec" {
+				return true
+			}
+			found := false
+			ast.Inspect(l.Body, func(k ast.Node) bool {
+				if id, ok := k.(*ast.Ident); ok && id.Name == want {
+					found = true
+				}
+				return !found
+			})
+			if found {
+				out = append(out, l)
+			}
+			return true
+		})
 	case strings.HasPrefix(sel, "var:"):
 		// name := func(...) {...}
 		want := strings.TrimPrefix(sel, "var:")
